@@ -293,6 +293,9 @@ func (fr *FuncRun) guardProv(f *Frame, st *State, a Addr) *Prov {
 	if tc, fname, shared := fr.sharedField(a); shared && tc.Replaced[fname] {
 		p.Replaced = true
 	}
+	if tc, fname, shared := fr.sharedField(a); shared && tc.EntriesReplaced[fname] {
+		p.EntriesReplaced = true
+	}
 	return p
 }
 
